@@ -123,6 +123,9 @@ class MPSBaseQtz(nn.Module):
     def sample_alpha_none(self):
         """Sample the previous alpha architectural coefficients. Used to change the alpha
         coefficients at each iteration"""
+        # the saved coefficients are constants: drop the autograd graph of the forward pass that
+        # sampled them (a backward pass has already freed it)
+        self.theta_alpha = cast(torch.Tensor, self.theta_alpha).detach()
         return
 
     def update_softmax_options(
